@@ -3,7 +3,8 @@
    in == [dt     |-> "struct" | "enum",  shape |-> "named" | "tuple"      (struct shape; variants are unit / tuple),
           traits |-> Seq([n, cp, err, hint]),          hint \in {"-", "struct"}
           tattrs |-> Seq([n, cp, own]),                type-level instructions other than trait instructions
-          ms     |-> Seq(Seq([n, cp, own]))]           member-level instructions, per member (field / variant)
+          ms     |-> Seq(Seq([n, cp, own])),           member-level instructions, per member (field / variant)
+          vf     |-> Seq(Seq(Seq([n, cp, own])))]      enum variants only: per variant, per payload field (tuple payload), its instructions
    A fault is [c |-> class, a |-> argument]; the argument is what the diagnostic names (type, member, instruction).
    Written from the property statement, README ("Contents" sections on each instruction) and the error-path tests'
    *intent*; the concrete wording lives in the harness's key phrases only. *)
@@ -15,7 +16,8 @@ TypeMisplaced == {"parent", "literal", "pattern", "type_hint"}
 \* near-misses the documentation anticipates ("Perhaps you meant ...")
 TypeMisnamed  == {"children", "ghost", "child"}
 MemberOk      == {"map", "map_bare", "map_action", "ghost_nd", "ghost_d", "ghost_owned_d", "ghost_ref_d", "child", "parent0", "parentp", "parentp_idx", "parentp_untyped", "parentp_untyped2", "parentp_untyped_deep",
-                  "literal", "pattern", "type_hint"}
+                  "literal", "pattern", "type_hint", "type_hint_s"}
+\* type_hint: #[type_hint(as ())], type_hint_s: #[type_hint(as {})] (the counterpart variant has named fields)
 \* map: #[map(name)] -- always with the counterpart member's name; map_bare: #[map] (neither name nor expression); map_action: #[map(~.clone())]
 \* (an expression without a name): the last two matter only where a name is needed (class 9)
 MapItems == {"map", "map_bare", "map_action"}
@@ -36,24 +38,26 @@ KindsFor(in, cp) == UNION {Appl(in.traits[i].n) : i \in {j \in DOMAIN in.traits 
 HasFrom(in, cp) == KindsFor(in, cp) \cap {"FO", "FR"} # {}
 HasInto(in, cp) == KindsFor(in, cp) \cap {"OI", "RI"} # {}
 ToSetQ(s) == {s[i] : i \in DOMAIN s}
+\* (payload fields of variants are members too: everything said about member instructions holds for theirs)
+VFAttrs(in) == IF "vf" \in DOMAIN in THEN UNION {ToSetQ(in.vf[i][j]) : <<i, j>> \in {p \in (DOMAIN in.vf) \X (1..3) : p[2] \in DOMAIN in.vf[p[1]]}} ELSE {}
 AllMemberAttrs(in) == UNION {ToSetQ(in.ms[i]) : i \in DOMAIN in.ms}
 Count(s, P(_)) == Cardinality({i \in DOMAIN s : P(s[i])})
 
 \* instructions that are recognised at the level where they stand (only these take part in the semantic rules)
-UnsupportedOn(dt) == IF dt = "struct" THEN {"literal", "pattern", "type_hint"} ELSE {"parent0", "parentp", "parentp_idx", "parentp_untyped", "parentp_untyped2", "parentp_untyped_deep", "child"}
+UnsupportedOn(dt) == IF dt = "struct" THEN {"literal", "pattern", "type_hint", "type_hint_s"} ELSE {"parent0", "parentp", "parentp_idx", "parentp_untyped", "parentp_untyped2", "parentp_untyped_deep", "child"}
 RecognisedT(in) == {x \in ToSetQ(in.tattrs) : x.n \in TypeLevelOk}
 RecognisedM(in, i) == {x \in ToSetQ(in.ms[i]) : x.n \in MemberOk \ UnsupportedOn(in.dt)}
 
 \* class 4: dedicated to a type no trait instruction mentions
 UnknownCp(in) == {[c |-> "unknown_cp", a |-> x.cp] :
-                    x \in {y \in (RecognisedT(in) \cup UNION {RecognisedM(in, i) : i \in DOMAIN in.ms}) : y.cp # "-" /\ y.cp \notin CpsOf(in)}}
+                    x \in {y \in (RecognisedT(in) \cup UNION {RecognisedM(in, i) : i \in DOMAIN in.ms} \cup VFAttrs(in)) : y.cp # "-" /\ y.cp \notin CpsOf(in)}}
 
 \* class 5: at most one default, at most one dedicated per type -- type level
 SecondDefaultT(in) == {[c |-> "second_default", a |-> n] : n \in {m \in TypeLevelOk : Count(in.tattrs, LAMBDA x : x.n = m /\ x.cp = "-") > 1}}
 SecondDedicatedT(in) == {[c |-> "second_dedicated", a |-> p[1] \o ":" \o p[2]] :
                           p \in {q \in TypeLevelOk \X {"A", "B", "Z"} : Count(in.tattrs, LAMBDA x : x.n = q[1] /\ x.cp = q[2]) > 1}}
 \* class 5, member level: parent on struct fields; literal / pattern / type_hint on enum variants
-InstrLabel(n) == IF IsParentItem(n) THEN "parent" ELSE n
+InstrLabel(n) == IF IsParentItem(n) THEN "parent" ELSE IF n = "type_hint_s" THEN "type_hint" ELSE n
 PerMemberUnique(in) == IF in.dt = "struct" THEN {"parent"} ELSE {"literal", "pattern", "type_hint"}
 SecondDefaultM(in) == {[c |-> "second_default", a |-> l] :
                          l \in {m \in PerMemberUnique(in) : \E i \in DOMAIN in.ms : Count(in.ms[i], LAMBDA x : InstrLabel(x.n) = m /\ x.cp = "-") > 1}}
@@ -63,15 +67,15 @@ SecondDedicatedM(in) == {[c |-> "second_dedicated", a |-> p[1] \o ":" \o p[2]] :
 \* class 6: misplaced / misnamed / unknown instructions.  A bare attribute o2o does not know is somebody else's attribute
 \* (no diagnostic); written inside #[o2o(...)] it is o2o's own and must be reported.
 Misplaced(in) == {[c |-> "misplaced", a |-> x.n] : x \in {y \in ToSetQ(in.tattrs) : y.n \in TypeMisplaced}}
-                 \cup {[c |-> "misplaced", a |-> x.n] : x \in {y \in AllMemberAttrs(in) : y.n \in MemberMisplaced}}
+                 \cup {[c |-> "misplaced", a |-> x.n] : x \in {y \in (AllMemberAttrs(in) \cup VFAttrs(in)) : y.n \in MemberMisplaced}}
                  \cup {[c |-> "misplaced", a |-> "child"] : x \in {y \in ToSetQ(in.tattrs) : y.n = "child" /\ in.dt = "enum"}}
 \* the diagnostic names the instruction the author probably meant (two near-misses with one guess are one diagnostic, DESIGN 8.6)
 GuessT(n) == IF n = "ghost" THEN "ghosts" ELSE "child_parents"
 GuessM(n) == "child"
 Misnamed(in) == {[c |-> "misnamed", a |-> GuessT(x.n)] : x \in {y \in ToSetQ(in.tattrs) : y.n \in TypeMisnamed /\ ~(y.n = "child" /\ in.dt = "enum")}}
-                \cup {[c |-> "misnamed", a |-> GuessM(x.n)] : x \in {y \in AllMemberAttrs(in) : y.n \in MemberMisnamed /\ ~(y.n = "children" /\ in.dt = "enum")}}
-                \cup {[c |-> "misplaced", a |-> "children"] : x \in {y \in AllMemberAttrs(in) : y.n = "children" /\ in.dt = "enum"}}
-UnknownInstr(in) == {[c |-> "unknown_instr", a |-> x.n] : x \in {y \in (ToSetQ(in.tattrs) \cup AllMemberAttrs(in)) : y.n \in Unknown /\ y.own}}
+                \cup {[c |-> "misnamed", a |-> GuessM(x.n)] : x \in {y \in (AllMemberAttrs(in) \cup VFAttrs(in)) : y.n \in MemberMisnamed /\ ~(y.n = "children" /\ in.dt = "enum")}}
+                \cup {[c |-> "misplaced", a |-> "children"] : x \in {y \in (AllMemberAttrs(in) \cup VFAttrs(in)) : y.n = "children" /\ in.dt = "enum"}}
+UnknownInstr(in) == {[c |-> "unknown_instr", a |-> x.n] : x \in {y \in (ToSetQ(in.tattrs) \cup AllMemberAttrs(in) \cup VFAttrs(in)) : y.n \in Unknown /\ y.own}}
 
 \* class 7: a ghost without default is a fault for every counterpart that has a From conversion it applies to (struct fields)
 GhostNoDefault(in) ==
@@ -108,6 +112,29 @@ TupleNamed(in) ==
      p \in {q \in (DOMAIN in.ms) \X (DOMAIN in.traits) :
               in.traits[q[2]].hint = "struct"
               /\ \E k \in Appl(in.traits[q[2]].n) : ~ExcusedFor(in, q[1], in.traits[q[2]].cp, k) /\ ~NameOk(EffMapItem(in, q[1], in.traits[q[2]].cp), k)}}
+\* class 9 for enum variants: a tuple variant whose counterpart variant is hinted `as {}` needs the field name on every payload field
+\* (validate_variant_fields).  The diagnostic names variant and field when the field has no instruction at all, and only the field index when
+\* it has one that lacks the name.
+EffHint(in, i, cp) ==
+  LET s == in.ms[i]
+      ok(j) == s[j] \in RecognisedM(in, i) /\ s[j].n \in {"type_hint", "type_hint_s"}
+      d == First(LAMBDA j : ok(j) /\ s[j].cp = cp, Len(s))
+      f == First(LAMBDA j : ok(j) /\ s[j].cp = "-", Len(s)) IN
+  IF d # 0 THEN s[d].n ELSE IF f # 0 THEN s[f].n ELSE "-"
+VFItem(in, i, j, cp) ==
+  LET s == in.vf[i][j]
+      d == First(LAMBDA x : s[x].n \in MapItems /\ s[x].cp = cp, Len(s))
+      f == First(LAMBDA x : s[x].n \in MapItems /\ s[x].cp = "-", Len(s)) IN
+  IF d # 0 THEN s[d].n ELSE IF f # 0 THEN s[f].n ELSE "-"
+VFGhost(in, i, j, cp) == \E x \in ToSetQ(in.vf[i][j]) : x.n = "ghost_d" /\ x.cp \in {"-", cp}
+VariantTupleNamed(in) ==
+  IF in.dt # "enum" \/ ~("vf" \in DOMAIN in) THEN {} ELSE
+  {[c |-> "tuple_named_mismatch", a |-> IF VFItem(in, p[1], p[2], in.traits[p[3]].cp) = "-" THEN "V" \o ToString(p[1]) \o "." \o ToString(p[2] - 1) ELSE ToString(p[2] - 1)] :
+     p \in {q \in (DOMAIN in.ms) \X (1..3) \X (DOMAIN in.traits) :
+              /\ q[2] \in DOMAIN in.vf[q[1]]
+              /\ EffHint(in, q[1], in.traits[q[3]].cp) = "type_hint_s"
+              /\ ~VFGhost(in, q[1], q[2], in.traits[q[3]].cp)
+              /\ \E k \in Appl(in.traits[q[3]].n) : ~NameOk(VFItem(in, q[1], q[2], in.traits[q[3]].cp), k)}}
 \* class 9 for parameterised parents: a child field given by index has no name to go by in a named counterpart (any conversion that is not a From,
 \* into_existing included)
 ParentFieldUnnamed(in) ==
@@ -126,12 +153,12 @@ UntypedParent(in) ==
 
 \* class 12: instruction not supported on this kind of member
 Unsupported(in) ==
-  IF in.dt = "struct" THEN {[c |-> "unsupported_member", a |-> x.n] : x \in {y \in AllMemberAttrs(in) : y.n \in {"literal", "pattern", "type_hint"}}}
+  IF in.dt = "struct" THEN {[c |-> "unsupported_member", a |-> InstrLabel(x.n)] : x \in {y \in AllMemberAttrs(in) : y.n \in {"literal", "pattern", "type_hint", "type_hint_s"}}}
   ELSE {[c |-> "unsupported_member", a |-> "parent"] : x \in {y \in AllMemberAttrs(in) : IsParentItem(y.n)}}
 
 Bare(S) == {[c |-> x, a |-> "-"] : x \in S}
 Faults(in) == Bare(TraitFaults(in.traits)) \cup UnknownCp(in) \cup SecondDefaultT(in) \cup SecondDedicatedT(in)
               \cup SecondDefaultM(in) \cup SecondDedicatedM(in) \cup Misplaced(in) \cup Misnamed(in) \cup UnknownInstr(in)
-              \cup GhostNoDefault(in) \cup ChildNoParents(in) \cup TupleNamed(in) \cup ParentFieldUnnamed(in) \cup UntypedParent(in) \cup Unsupported(in)
+              \cup GhostNoDefault(in) \cup ChildNoParents(in) \cup TupleNamed(in) \cup VariantTupleNamed(in) \cup ParentFieldUnnamed(in) \cup UntypedParent(in) \cup Unsupported(in)
 FaultKeys(in) == {x.c \o "/" \o x.a : x \in Faults(in)}
 =============================================================================
